@@ -23,6 +23,7 @@ def kindOfJson (j : Json) : Except String FieldKind := do
   if let some x := optField j "wrap" then
     return .wrap (← (← j.getObjVal? "name").getStr?) (← x.getNat?)
   if let some x := optField j "ref" then return .ref (← x.getNat?)
+  if let some x := optField j "refs" then return .refs (← (← x.getArr?).toList.mapM (·.getNat?))
   throw s!"field kind {j.compress}"
 
 def fieldOfJson (j : Json) : Except String FieldSpec := do
@@ -30,6 +31,8 @@ def fieldOfJson (j : Json) : Except String FieldSpec := do
          kind := (← kindOfJson (← j.getObjVal? "kind")),
          hasDefault := boolField j "default",
          serKey := (← (← j.getObjVal? "key").getStr?),
+         camelKey := (← (← j.getObjVal? "camelKey").getStr?),
+         camelName := (← (← j.getObjVal? "camelName").getStr?),
          fastOk := boolField j "fastOk",
          trustedOk := boolField j "trustedOk",
          schemaOk := boolField j "schemaOk",
@@ -43,6 +46,8 @@ def parentOfJson (j : Json) : Except String Parent := do
   | "omit" => pure (.omit c names)
   | "pick" => pure (.pick c names)
   | "partial" => pure (.partialOf c)
+  | "allreq" => pure (.allRequired c)
+  | "extend" => pure (.omit c [])      -- Extend[C] copies every field and the live `_required`, like C.omit()
   | s => throw s!"parent kind {s}"
 
 def srcOfJson (j : Json) : Except String ClassSrc := do
@@ -66,6 +71,7 @@ def argOfJson (j : Json) : Except String Arg := do
   if let some x := optField j "prim" then return .prim (← x.getNat?) (boolField j "valid")
   if let some x := optField j "inst" then return .inst (← x.getNat?)
   if let some x := optField j "struct" then return .struct (← x.getNat?)
+  if let some x := optField j "structs" then return .structs (← (← x.getArr?).toList.mapM (·.getNat?))
   throw s!"arg {j.compress}"
 
 def kwArgs (j : Json) : Except String (List (String × Arg)) :=
@@ -90,11 +96,11 @@ def opOfJson (j : Json) : Except String (List WorldOp) := do
     match op with
     | "define" => pure [.define c (← srcOfJson (← j.getObjVal? "src"))]
     | "construct" => pure [.construct c kw]
-    | "serialize" => pure [.serialize c kw]
-    | "deserialize" => pure [.serialize c kw, .deserialize c kw]
+    | "serialize" => pure [.serialize c kw (boolField j "camel")]
+    | "deserialize" => pure [.serialize c kw (boolField j "camel"), .deserialize c kw]
     | "toSchema" => pure [.toSchema c]
     | "createSerializer" => pure [.createSerializer c]
-    | "trusted" => pure [.serialize c kw, .trustedDeserialize c kw]
+    | "trusted" => pure [.serialize c kw false, .trustedDeserialize c kw]
     | s => throw s!"op {s}"
 
 def strs (xs : List String) : Json := Json.arr (xs.map Json.str).toArray
@@ -106,7 +112,7 @@ def wrapsJson (fs : List FieldSpec) : Json :=
 
 /-- per-step observation; for `define` also the resolved implicit wrappers of the new class -/
 def stepJson (w' : World) (op : WorldOp) (o : Obs) : Json :=
-  let base := [("done", Json.bool o.done), ("keys", strs o.keys), ("wrote", Json.bool o.wrote),
+  let base := [("done", Json.bool o.done), ("accepted", Json.bool o.accepted), ("keys", strs o.keys), ("wrote", Json.bool o.wrote),
                ("clash", Json.bool o.clash)]
   match op with
   | .define c _ =>
@@ -139,9 +145,9 @@ def causes (a b : Option Behaviour) : List String :=
   match a, b with
   | some x, some y =>
     (if x.fields != y.fields then ["wrapper-clash"] else []) ++
-    (if x.required != y.required || x.sigRequired != y.sigRequired || x.schemaRequired != y.schemaRequired
-     then ["required-written"] else []) ++
-    (if x.serMapper != y.serMapper then ["mapper-cache"] else []) ++
+    (if x.required != y.required || x.sigRequired != y.sigRequired then ["required-written"] else []) ++
+    (if x.schemaRequired != y.schemaRequired then ["schema-required"] else []) ++
+    (if x.serMapper != y.serMapper || x.serMapperCamel != y.serMapperCamel then ["mapper-cache"] else []) ++
     (if x.fastKeys != y.fastKeys then ["serializer-install"] else []) ++
     (if x.trusted != y.trusted then ["simplicity-cache"] else []) ++
     (if x.kwargs != y.kwargs || x.extras != y.extras || x.compact != y.compact || x.failFast != y.failFast
@@ -164,7 +170,8 @@ def classJson (h : List WorldOp) (wEnd : World) (closures : Json) (c : ClassId) 
       ("required", strs e.required), ("sigRequired", strs e.core.sigRequired),
       ("kwargs", Json.bool e.core.kwargs), ("ownSerialize", Json.bool e.serializer.isSome),
       ("created", Json.bool e.createdFast),
-      ("mapperCached", Json.bool (alookup (mkey cfg c e) wEnd.mapperCache).isSome),
+      ("mapperCached", Json.bool ((alookup (mkey cfg c e false) wEnd.mapperCache).isSome
+                                   || (alookup (mkey cfg c e true) wEnd.mapperCache).isSome)),
       ("fields", strs (fnames e.core.fields)),
       ("closed", Json.bool (closed Tf h)),
       ("interferes", Json.bool (va != vb)),
@@ -187,6 +194,7 @@ def run (j : Json) : Except String Json := do
     ("config", Json.mkObj [("wrapperByName", Json.bool cfg.wrapperByName),
                            ("schemaWritesRequired", Json.bool cfg.schemaWritesRequired),
                            ("mapperByName", Json.bool cfg.mapperByName),
+                           ("mapperDropsCamel", Json.bool cfg.mapperDropsCamel),
                            ("simplicityByName", Json.bool cfg.simplicityByName),
                            ("serializerOnBase", Json.bool cfg.serializerOnBase)])])
 
